@@ -321,6 +321,20 @@ func Gen(pr Profile) func(t *rapid.T) Scenario {
 			})
 		}
 		sc.File.Ops = ops
+		if rapid.IntRange(0, 3).Draw(t, "staged") == 0 {
+			// settings that arrive after a first render (see Scenario.Split); an anonymous import of a path the
+			// body references is not made late: it un-registers the path, which is then named afresh
+			k := rapid.IntRange(0, len(ops)).Draw(t, "split")
+			kept := append([]recipe.FileOp{}, ops[:k]...)
+			for _, op := range ops[k:] {
+				if op.Op == "Anon" && seen[string(op.Args[0])] {
+					continue
+				}
+				kept = append(kept, op)
+			}
+			sc.File.Ops = kept
+			sc.Split = k + 1
+		}
 		return sc
 	}
 }
